@@ -2508,19 +2508,19 @@ def _caller_guards(blocked, free, shift_out=None):
 CLAUSES = [
     Clause('basis', oracle_basis, enumerate=enum_basis, max_share={'refusal': 0.08},
            min_share=dict({'nt': 0.4, 'centred': 0.06, 'hex_4': 0.04,
-                           'ledger': 0.5, 'hkl_form': 0.15, 'hkl_narrow': 0.045, 'hkl_float': 0.03, 'hkl_layout': 0.02, 'caller_mut': 0.025,
-                           'sym': 0.013, 'sym_perm': 0.009, 'sym_relabel': 0.009, 'near_sym': 0.009},
+                           'ledger': 0.5, 'hkl_form': 0.15, 'hkl_narrow': 0.045, 'hkl_float': 0.03, 'hkl_layout': 0.02, 'caller_mut': 0.024,
+                           'sym': 0.013, 'sym_perm': 0.0088, 'sym_relabel': 0.0088, 'near_sym': 0.0088},
                           **_unit_guards(0.04, 0.025, 0.12, 0.035)),
            desc='free_surface_basis on every plane up to the index bound x cutboxvector in a generic cell per family, centred '
                 'settings, Miller-Bravais: integer, right-handed, zone law exact, out-of-plane row on the normal side, normal = +g'),
     Clause('basis_random', oracle_basis_random, basis_random_cases, quick=560, thorough=13000,
            min_share=dict({'nt': 0.35, 'centred': 0.1, 'rigid_rot': 0.15,
-                           'hkl_form': 0.2, 'hkl_narrow': 0.065, 'caller_mut': 0.1, 'ledger': 0.1, 'sym': 0.13, 'sym_perm': 0.1,
-                           'sym_relabel': 0.025, 'near_sym': 0.023}, **_unit_guards(0.1, 0.03, 0.23, 0.11)),
+                           'hkl_form': 0.18, 'hkl_narrow': 0.065, 'caller_mut': 0.099, 'ledger': 0.1, 'sym': 0.11, 'sym_perm': 0.095,
+                           'sym_relabel': 0.025, 'near_sym': 0.016}, **_unit_guards(0.1, 0.03, 0.23, 0.11)),
            max_share={'refusal': 0.15},
            desc='the same oracle on random cells of every family / centred setting (30 % rigidly rotated), planes up to index 4'),
     Clause('surface', oracle_surface, surface_cases, quick=570, thorough=11500,
-           min_share=dict({'nt': 0.2, 'built': 0.4, 'multilayer': 0.2, 'multishift': 0.3, 'vacuum': 0.12, 'minwidth_decides': 0.06,
+           min_share=dict({'nt': 0.2, 'built': 0.31, 'multilayer': 0.2, 'multishift': 0.3, 'vacuum': 0.12, 'minwidth_decides': 0.06,
                            'negmult': 0.12, 'tuplemult': 0.12, 'centred': 0.12, 'hex4': 0.02, 'cut_a': 0.07, 'cut_b': 0.07,
                            'history_second_surface': 0.26, 'history_third_surface': 0.1, 'history_shift_persisted': 0.07,
                            'history_set_shift': 0.16, 'history_defaults_after_given': 0.14,
@@ -2536,17 +2536,17 @@ CLAUSES = [
                 'minwidth/even/sizemults, vacuum lengthens the cut vector only, surfacearea; in half of the cases after one or two '
                 'earlier surface() / set_shift() calls with other arguments on the same object (only the shift persists)'),
     Clause('fault', oracle_fault, fault_cases, quick=570, thorough=11500,
-           min_share={'nt': 0.2, 'built': 0.4, 'shifted': 0.3, 'both_sides': 0.35, 'lattice_nonzero': 0.02, 'custom_avect': 0.1,
-                      'onplane_exact': 0.015, 'itermap': 0.07, 'refusal_avect': 0.025, 'kind_faultshift': 0.03, 'fpos_rel': 0.12,
+           min_share={'nt': 0.2, 'built': 0.31, 'shifted': 0.26, 'both_sides': 0.31, 'lattice_nonzero': 0.02, 'custom_avect': 0.1,
+                      'onplane_exact': 0.015, 'itermap': 0.042, 'refusal_avect': 0.025, 'kind_faultshift': 0.03, 'fpos_rel': 0.1,
                       'a1_only': 0.06, 'centred': 0.12,
-                      'history_second_surface': 0.25, 'history_third_surface': 0.11, 'history_faultpos_defaulted_after_set': 0.07,
-                      'history_faultpos_defaulted_after_default': 0.005, 'history_natoms_changed': 0.23,
+                      'history_second_surface': 0.23, 'history_third_surface': 0.11, 'history_faultpos_defaulted_after_set': 0.07,
+                      'history_faultpos_defaulted_after_default': 0.005, 'history_natoms_changed': 0.2,
                       'history_setter_faultpos': 0.12, 'history_fault_between': 0.075, 'history_setter_avect': 0.02,
-                      'history_shift_persisted': 0.05, 'history_set_shift': 0.17, 'history_pre_fault': 0.08,
+                      'history_shift_persisted': 0.041, 'history_set_shift': 0.16, 'history_pre_fault': 0.08,
                       # classes carried over from the seeded rounds
                       'ledger': 0.28, 'ledger_other': 0.05, 'forms': 0.08, 'hkl_form': 0.075, 'hkl_narrow': 0.04, 'shift_form': 0.065,
                       'mults_form': 0.04, 'npscalar_form': 0.07, 'store': 0.05, 'store_narrow_float': 0.025, 'fpos_near_layer': 0.012,
-                      'kind_a12near': 0.01, 'decades': 0.01, 'near_sym': 0.03, 'sym': 0.065, 'sym_perm': 0.055, 'sym_relabel': 0.013,
+                      'kind_a12near': 0.01, 'decades': 0.01, 'near_sym': 0.027, 'sym': 0.065, 'sym_perm': 0.055, 'sym_relabel': 0.013,
                       'rows_signed_perm': 0.035,
                       **_caller_guards(0.06, 0.1), **_unit_guards(0.09, 0.045, 0.24, 0.09)},
            max_share={'refusal_search': 0.25, 'refusal_cut': 0.4, 'c04_filtering_skip': 0.02, 'atom_on_fault_plane_exempt': 0.15},
